@@ -205,11 +205,9 @@ Proof.
     eapply SInv_SStep; [exact H|]. eapply SStep_same_l; [|apply ss_retry_task]. repeat split.
   - destruct (paging s); [|assumption]. unfold next_page.
     eapply SInv_SStep; [|apply ss_send_request]. apply SInv_start_timer.
-    assert (Hreset : SInv (set_tfired false (set_pstart (now (set_plan pl s))
-              (set_pairs (map (fun _ => mkPair [] []) (pairs (set_plan pl s)))
-                 (set_fexc None (set_fres None (set_event false (set_plan pl s)))))))).
+    assert (Hreset : SInv (page_reset pl s)).
     { unfold SInv, final_set. cbn. repeat split. rewrite Forall_map. apply Forall_forall. intros; cbn; split; reflexivity. }
-    destruct pf; [|exact Hreset].
+    unfold page_timer_reset. destruct pf; [|exact Hreset].
     eapply SInv_SStep; [exact Hreset|]. left. apply sv_page_reset.
   - destruct H as (He & Hx & Hp). unfold SInv, add_cb, final_set. cbn. repeat split; try assumption.
     apply Forall_app. split; [assumption|]. constructor; [|constructor].
@@ -606,10 +604,10 @@ Proof.
     assert (Hne : attempts s <> []) by tauto.
     assert (Hc : cur_conn s <> None) by tauto.
     unfold next_page.
-    match goal with |- LInv (send_request g true (start_timer ?x)) => set (s2 := x) end.
+    set (s2 := page_timer_reset pf (page_reset pl s)).
     assert (F2 : attempts s2 = attempts s /\ cur_conn s2 = cur_conn s /\ queue s2 = queue s /\ paging s2 = paging s /\ tfired s2 = false).
-    { unfold s2. destruct pf; [|repeat split].
-      match goal with |- context [cancel_timer ?y] => destruct (fl_page_reset y) as (c1 & c2 & c3 & c4 & c5) end.
+    { unfold s2, page_timer_reset. destruct pf; [|repeat split].
+      destruct (fl_page_reset (page_reset pl s)) as (c1 & c2 & c3 & c4 & c5).
       rewrite c1, c2, c3, c4, c5. repeat split. }
     destruct F2 as (f1 & f2 & f3 & f4 & f5).
     destruct (fl_start_timer s2) as (t1 & t2 & t3 & t4 & t5).
